@@ -133,6 +133,21 @@ func (t *Term) Has(pats ...string) bool {
 			}
 			continue
 		}
+		if strings.HasPrefix(p, "binops=") { // every arithmetic operator in the term is one of the listed ones
+			allowed := map[string]bool{}
+			for _, o := range strings.Split(p[7:], ",") {
+				allowed[o] = true
+			}
+			for a := range at {
+				if strings.HasPrefix(a, "binop:") && !allowed[a[6:]] {
+					switch a[6:] {
+					case "+", "-", "*", "/", "%", "<<", ">>", "neg":
+						return false
+					}
+				}
+			}
+			continue
+		}
 		if strings.HasPrefix(p, "!") { // negative pattern: must not be present
 			if t.Has(p[1:]) {
 				return false
